@@ -6,13 +6,17 @@ import (
 	"fmt"
 	"io"
 	"net/http"
+	"net/http/httptest"
 	"regexp"
+	"runtime"
+	"sort"
 	"strings"
 	"sync"
 	"sync/atomic"
 	"testing"
 
 	"github.com/gofiber/fiber/v3"
+	"github.com/gofiber/fiber/v3/middleware/adaptor"
 	"github.com/valyala/fasthttp/fasthttputil"
 	"pgregory.net/rapid"
 
@@ -518,3 +522,71 @@ type TaintCase struct{ Note string }
 // the taint stress is a timing based exploration; its replay file documents the observation only
 var propTaint = vk.Register(&vk.Prop[TaintCase]{Property: property, Name: "taint", Gen: func(*rapid.T) TaintCase { return TaintCase{} },
 	Check: func(TaintCase) vk.Verdict { return vk.Verdict{Skip: true} }, Quick: 1, Thorough: 1})
+
+// ---- the same histories served through the net/http adaptor (its own pool of request contexts) ---------------------
+
+// serveHTTP turns the request's wire form into an http.Request, serves it through adaptor.FiberApp and returns a
+// canonical text of the recorded response ("" , false: net/http does not accept this request text)
+func serveHTTP(h http.Handler, raw []byte) (string, bool) {
+	req, err := http.ReadRequest(bufio.NewReader(bytes.NewReader(raw)))
+	if err != nil {
+		return "", false
+	}
+	req.RemoteAddr = "192.0.2.7:4711"
+	rec := httptest.NewRecorder()
+	h.ServeHTTP(rec, req)
+	var lines []string
+	for k, vs := range rec.Header() {
+		if k == "Date" {
+			continue
+		}
+		for _, v := range vs {
+			lines = append(lines, k+": "+expiresRe.ReplaceAllString(v, "expires=X"))
+		}
+	}
+	sort.Strings(lines)
+	return fmt.Sprintf("%d\n%s\n\n%s", rec.Code, strings.Join(lines, "\n"), rec.Body.String()), true
+}
+
+func checkAdaptor(c Case) vk.Verdict {
+	if !carriable(c.Probe.Flash) {
+		return vk.Verdict{Skip: true}
+	}
+	// the adaptor's request contexts live in a package-level sync.Pool shared by every app of the process: two garbage
+	// collections empty it, so that the fresh app below really starts from nothing and the case is self-contained
+	runtime.GC()
+	runtime.GC()
+	fresh := adaptor.FiberApp(newApp(c))
+	exp, ok := serveHTTP(fresh, c.Probe.wire())
+	if !ok {
+		return vk.Verdict{Skip: true}
+	}
+	runtime.GC()
+	runtime.GC()
+	h := adaptor.FiberApp(newApp(c))
+	served := 0
+	for _, hr := range c.Hist {
+		if hr.Kind == "malformed" || !carriable(hr.Flash) {
+			continue // net/http refuses these before the adaptor sees them
+		}
+		if _, ok := serveHTTP(h, hr.wire()); ok {
+			served++
+		}
+	}
+	got, _ := serveHTTP(h, c.Probe.wire())
+	if got != exp {
+		return vk.Failf("through adaptor.FiberApp the probe's observation depends on the requests served before it (immutable=%v):\nhistory: %q\nprobe: %q\n--- after history ---\n%s\n--- on a fresh app ---\n%s\n--- first difference ---\n%s",
+			c.Immutable, histSummary(c), c.Probe.wire(), got, exp, firstDiff(got, exp))
+	}
+	v := vk.Verdict{NonTrivial: served > 0, Classes: []string{"through-adaptor"}}
+	for _, hr := range c.Hist {
+		for _, a := range hr.Acts {
+			v.Classes = append(v.Classes, "adaptor-act:"+a)
+		}
+	}
+	return v
+}
+
+var propAdaptor = vk.Register(&vk.Prop[Case]{Property: property, Name: "adaptor", Gen: genCase, Check: checkAdaptor, Quick: 300, Thorough: 3000})
+
+func TestAdaptor(t *testing.T) { propAdaptor.Run(t) }
